@@ -1039,7 +1039,10 @@ func (in *Interp) applyTransform(t *TransformFn, args []val.Value) (val.Value, *
 			if up.K != val.Obj {
 				return val.U, evalErr("ErrIllegalUpdate")
 			}
-			for k, v := range up.O {
+			// the library inserts a copy of the update values as they were
+			// when the clause was evaluated (functions become "")
+			snap, _ := cloneTracked(up)
+			for k, v := range snap.O {
 				item.O[k] = v
 			}
 		}
